@@ -10,7 +10,11 @@ package main
 //     Props/C12Facts.lean compares them with what the source says now;
 //   - the argument of strings.HasSuffix that computes forceFragment;
 //   - that ResolveReference combines the flags as `iri.forceFragment || ref.forceFragment`;
-//   - the set of string literals compared with `elem` in resolvePath (the dot segments).
+//   - the set of string literals compared with `elem` in resolvePath (the dot segments);
+//   - the exported API of iri/parsed_iri.go and iri/base_iri.go (every exported function, and every exported
+//     method of ParsedIRI / BaseIRI, with its receiver), sorted: the T3 histories of go/cmd/c12/hist.go drive
+//     exactly this list, so a new exported method breaks the fact until it is modelled and driven;
+//   - the body of DropFragment as the sorted list of its statements (`lhs=rhs` for plain assignments).
 // Anything outside these shapes is emitted as "unknown" and makes the consuming theorem fail.
 
 import (
@@ -177,6 +181,52 @@ func genC12(leanRoot string) {
 			})
 		}
 	}
+	// exported API of the two files; body of DropFragment
+	api := []string{}
+	dropBody := []string{"unknown"}
+	for _, fn := range []string{"parsed_iri.go", "base_iri.go"} {
+		f2, err := parser.ParseFile(fset, filepath.Join(repo, "iri", fn), nil, 0)
+		if err != nil {
+			fmt.Fprintln(os.Stderr, "c12:", err)
+			os.Exit(2)
+		}
+		for _, d := range f2.Decls {
+			fd, ok := d.(*ast.FuncDecl)
+			if !ok || !fd.Name.IsExported() {
+				continue
+			}
+			recv := "func"
+			if fd.Recv != nil && len(fd.Recv.List) == 1 {
+				t := fd.Recv.List[0].Type
+				if st, ok := t.(*ast.StarExpr); ok {
+					t = st.X
+				}
+				if id, ok := t.(*ast.Ident); ok {
+					recv = id.Name
+				} else {
+					recv = "unknown"
+				}
+			}
+			api = append(api, recv+"."+fd.Name.Name)
+			if recv == "ParsedIRI" && fd.Name.Name == "DropFragment" && fd.Body != nil {
+				dropBody = []string{}
+				for _, st := range fd.Body.List {
+					item := "unknown"
+					if as, ok := st.(*ast.AssignStmt); ok && as.Tok == token.ASSIGN && len(as.Lhs) == 1 && len(as.Rhs) == 1 {
+						lhs := c12Sel(as.Lhs[0])
+						if lit, ok := c12Lit(as.Rhs[0]); ok && lhs != "" {
+							item = lhs + "=" + strconv.Quote(lit)
+						} else if id, ok := as.Rhs[0].(*ast.Ident); ok && lhs != "" {
+							item = lhs + "=" + id.Name
+						}
+					}
+					dropBody = append(dropBody, item)
+				}
+			}
+		}
+	}
+	sort.Strings(api)
+	sort.Strings(dropBody) // as a set: the three assignments are independent
 	// as a set: the order of comparisons is a matter of style
 	sort.Strings(dotLits)
 	uniq := dotLits[:0]
@@ -209,6 +259,8 @@ func genC12(leanRoot string) {
 	fmt.Fprintf(&sb, "/-- second argument of strings.HasSuffix(s, …) computing forceFragment in ParseIRI -/\ndef forceFragmentSuffix : String := %s\n\n", strconv.Quote(hasSuffix))
 	fmt.Fprintf(&sb, "/-- how ResolveReference combines the flags -/\ndef forceFragmentCombine : String := %s\n\n", strconv.Quote(forceCombine))
 	fmt.Fprintf(&sb, "/-- literals compared with `elem` in resolvePath (sorted set) -/\ndef resolvePathElemLiterals : List String :=\n  %s\n\n", q(dotLits))
+	fmt.Fprintf(&sb, "/-- exported functions (`func.Name`) and exported methods (`Receiver.Name`) of iri/parsed_iri.go and iri/base_iri.go, sorted -/\ndef parsedIRIApi : List String :=\n  %s\n\n", q(api))
+	fmt.Fprintf(&sb, "/-- statements of (*ParsedIRI).DropFragment, sorted (`unknown`: not a plain assignment of a literal) -/\ndef dropFragmentBody : List String :=\n  %s\n\n", q(dropBody))
 	sb.WriteString("end RdfModel.Gen.IRIFacts\n")
 	writeIfChanged(filepath.Join(leanRoot, "RdfModel", "Gen", "IRIFacts.lean"), sb.String())
 }
